@@ -87,6 +87,8 @@ def token_types(logic, tokens):
             out.append(frozenset(['or']))
         elif t == '&':
             out.append(frozenset(['and']))
+        elif t.startswith('"'):
+            out.append(frozenset(['ATOM']))
         elif t in kw:
             out.append(frozenset([t, 'ATOM']))
         else:
@@ -136,6 +138,9 @@ def random_sentence(r, logic, depth=4, atoms=('p', 'q', 'zeta')):
     def expand(sym, d):
         if sym not in G:
             if sym == 'ATOM':
+                if r.random() < 0.12:
+                    return [r.choice(['"quoted atom"', '"A"', '"x y"',
+                                      '"not"', '"p"'])]
                 return [r.choice(atoms)]
             if sym == 'not' and r.random() < 0.2:
                 return ['~']
